@@ -11,7 +11,7 @@ from hypothesis import strategies as st
 ID = "C19"
 TECHNIQUE = ("Hypothesis-generated operation histories interpreted on a TwoDResponse and on a list-of-additions "
              "reference model; all admissible views compared after every step")
-LEVEL = ("Histories of up to 14 (quick) / 30 (thorough) operations - additions at pathway/type/process/signal/total "
+LEVEL = ("(Tags are strings or integers, including 0 and the empty string.) Histories of up to 14 (quick) / 30 (thorough) operations - additions at pathway/type/process/signal/total "
          "level with and without an explicit resolution, repeated tags, unknown keys, tags at non-pathway levels, "
          "cross-level additions, admissible and inadmissible resolution changes - are replayed on a TwoDResponse. "
          "After every step each admissible view (every pathway, type, process, signal, total, get_all_data) must "
